@@ -53,8 +53,9 @@ class ProblemCase(Case):
     family = "scipy-problem"
 
     def __init__(self, cid, *, method, nkinds=(), lkinds=(), mask=None, N=2, lin_zero=None, options="none", max_iter=7,
-                 var_bounds="both"):
+                 var_bounds="both", types=None):
         self.id = cid
+        self.types = tuple(types) if types is not None else None   # variable types (1 = real, 2 = integer)
         self.method, self.nkinds, self.lkinds, self.N = method, tuple(nkinds), tuple(lkinds), N
         self.mask = tuple(mask) if mask is not None else None
         self.free = [j for j in range(N) if mask is None or mask[j]]
@@ -82,6 +83,8 @@ class ProblemCase(Case):
         }
         if mask is not None:
             d["variables"]["mask"] = list(mask)
+        if types is not None:
+            d["variables"]["types"] = list(types)
         if options == "empty":
             d["optimizer"]["options"] = {}
         elif options == "own":   # the options carry the back-end's own limit: the configured max_iterations still wins
@@ -96,7 +99,7 @@ class ProblemCase(Case):
         self.cfg0 = make_config(d)
 
     def describe(self):
-        return (f"{self.method} nonlinear={self.nkinds} linear={self.lkinds} mask={self.mask} options={self.options} "
+        return (f"{self.method} nonlinear={self.nkinds} linear={self.lkinds} mask={self.mask} types={self.types} options={self.options} "
                 f"var_bounds={self.var_bounds} supported={self.supported}")
 
     def inputs(self, env):
@@ -235,6 +238,12 @@ class ProblemCase(Case):
                         elo = inp["vlo"][j] if self.var_bounds in ("both", "lower") else -INF
                         ehi = inp["vhi"][j] if self.var_bounds in ("both", "upper") else INF
                         props.append((f"bounds[{i}].are_those_of_variable_{j}", And(exact(lb[i], elo), exact(ub[i], ehi))))
+        # --- variable types: only the free variables are exposed to a method that knows about integrality
+        if self.types is not None and out["kind"] == "de":
+            integ = kw.get("integrality")
+            exp = [self.types[j] == 2 for j in free]
+            props.append((f"integrality_of_the_free_variables_only.options_{self.options}",
+                          SB(integ is not None and [bool(t) for t in np.asarray(integ).ravel()] == exp)))
         # --- options
         opts = out["options"] or {}
         key = "maxfun" if self.method == "tnc" else "maxiter"
@@ -355,6 +364,9 @@ def build_cases(tier):
     add(method="bfgs", var_bounds="both")
     add(method="cobyla", var_bounds="both")
     add(method="differential_evolution", var_bounds="none")
+    for o in ("empty", "dict", "none"):   # integer variables, one of them fixed
+        add(method="differential_evolution", N=3, mask=(True, False, True), types=(1, 2, 2), options=o)
+    add(method="differential_evolution", N=2, types=(2, 1), options="empty")
     for vb in ("lower", "upper"):
         add(method="slsqp", var_bounds=vb, nkinds=("both",))
     if tier == "thorough":
